@@ -158,11 +158,12 @@ _STD_PURE = {}
 for _k in ("bisect", "bisect_left", "bisect_right"):
     _STD_PURE["bisect." + _k] = getattr(_bisect, _k)
     _STD_PURE[_k] = getattr(_bisect, _k)      # `from bisect import bisect_right`
+_STD_PURE["str.maketrans"] = str.maketrans
 _TYPES = {"bool": bool, "int": int, "float": float, "str": str, "list": list, "tuple": tuple,
           "dict": dict, "set": set, "slice": slice}
 _STR_METHODS = {
     "lower", "upper", "casefold", "strip", "lstrip", "rstrip", "startswith", "endswith", "split",
-    "replace", "isdigit", "join", "title", "partition", "rpartition", "rsplit", "count", "index", "removeprefix", "removesuffix", "isalnum", "islower", "isspace", "center", "ljust", "rjust", "expandtabs", "swapcase", "isnumeric", "isdecimal", "capitalize", "format", "splitlines", "find", "rfind", "zfill", "isalpha", "isupper",
+    "replace", "isdigit", "join", "title", "translate", "partition", "rpartition", "rsplit", "count", "index", "removeprefix", "removesuffix", "isalnum", "islower", "isspace", "center", "ljust", "rjust", "expandtabs", "swapcase", "isnumeric", "isdecimal", "capitalize", "format", "splitlines", "find", "rfind", "zfill", "isalpha", "isupper",
 }
 _CONTAINER_METHODS = {"get", "items", "keys", "values", "count", "index", "copy", "append", "extend", "add", "update",
                       "setdefault", "pop", "clear", "remove", "discard", "insert", "sort", "reverse", "popitem", "union",
@@ -955,7 +956,10 @@ class Lifted:
                             try:   # any other module-level literal (a number, a string, a filled table): one object per parsed module
                                 mod._fold_globals[tgt.id] = ast.literal_eval(val)
                             except (ValueError, SyntaxError, TypeError, MemoryError, RecursionError):
-                                pass
+                                try:   # a constant computed from literals by pure built-ins (str.maketrans({...}), 2 ** 10, frozenset((...)))
+                                    mod._fold_globals[tgt.id] = Evaluator({}).ev(val)
+                                except Exception:  # noqa: BLE001 -- not a constant the language can compute: stays unbound (Unfoldable where used)
+                                    pass
             self.module_globals = mod._fold_globals
             self.module_funcs = {n.name: n for n in mod.tree.body if isinstance(n, ast.FunctionDef) and n is not fn}
             self.module_classes = {n.name: n for n in mod.tree.body if isinstance(n, ast.ClassDef)}
